@@ -644,13 +644,13 @@ theorem activate_spec (t : Tag) (maxSend maxRecv : Nat) (hms : 16 ≤ maxSend) (
 
 /-- interactions one operation needs at most, whatever the tag type: the Type 4 frame bound for the largest
 retry count (5) and the largest S(WTX) limit (59 * 2^14) -/
-def opBound : Nat := (7 + 65536) * (13 * (6 * 966657) + 65539 * (6 * 966657))
+def opBound : Nat := (7 + 65536) * (13 * (7 * 966657) + 65539 * (7 * 966657))
 
 theorem t4Frames_le (c : Cfg) (p0 : Pcd) (hl : c.lim ≤ 966656) (hn : p0.nNak ≤ 5) (ha : p0.nAck ≤ 5) :
     t4Frames c p0 ≤ opBound := by
   unfold t4Frames opBound exchFrames loopFrames
-  have h1 : (p0.nNak + 1) * (c.lim + 1) ≤ 6 * 966657 := Nat.mul_le_mul (by omega) (by omega)
-  have h2 : (p0.nAck + 1) * (c.lim + 1) ≤ 6 * 966657 := Nat.mul_le_mul (by omega) (by omega)
+  have h1 : (p0.nNak + 2) * (c.lim + 1) ≤ 7 * 966657 := Nat.mul_le_mul (by omega) (by omega)
+  have h2 : (p0.nAck + 2) * (c.lim + 1) ≤ 7 * 966657 := Nat.mul_le_mul (by omega) (by omega)
   exact Nat.mul_le_mul_left _ (Nat.add_le_add (Nat.mul_le_mul_left _ h1) (Nat.mul_le_mul_left _ h2))
 
 /-- what a session returns: nothing (no tag object), or one result per operation, every returned NDEF object
